@@ -455,7 +455,7 @@ pub fn run(args: &[String]) -> ! {
                    Non-trivial: a height whose block contains user transactions and that is reached over \
                    >= 3 distinct call paths",
             cases_quick: 160,
-            cases_thorough: 5000,
+            cases_thorough: 4000,
             shards: 12,
             min_nontrivial: 0.2,
             max_shrink_iters: 60,
